@@ -60,3 +60,11 @@ reg("C14", "runtime monitoring: weight snapshots before/after one and two export
 reg("C15", "runtime monitoring: reference-model oracles for folded layers (conv followed by stock BN; conv with the quantized folded tensors) and fold/unfold model equivalence",
     "420 (quick) folded-layer configurations over both classes x folding mode x bias/center/scale x geometry x extreme BN statistics x quantizers, plus generated sequential/branched conv+BN models folded through model_quantize(enable_bn_folding=True) and unfolded again: which layers fold, folded-vs-float and folded-vs-unfolded predictions.",
     "Unquantized equality to 1e-4 relative; model-level float comparison with 20-bit quantizers.", "5/C15")
+
+reg("C16", "runtime contracts (icontract postcondition, plain fallback) on MultiplierFactory.make_multiplier over an operand-type grid; exact Fraction value-lattice oracle with brute-force enumeration for small types",
+    "All operand kind pairs (fixed signed/unsigned, po2 signed/unsigned, ternary, binary +-1, binary 0/1, float) built the way qtools builds them (qkeras quantizer -> quantizer factory), bits 1..8 quick / ..16 thorough with every int_bits / max_value setting plus random wide pairs: every product of operand extremes -- and every product of all value pairs for small types -- must lie in the reported output lattice (except min x min), zero representable, implementation kind as the operand kinds call for; the qkeras->qtools conversion itself is checked against the quantizer's documented lattice.",
+    "po2 types capped at 10 bits in the grid (exponent magnitudes); lattices from vf/ref/types.py.", "5/C16")
+
+reg("C17", "runtime contracts on AccumulatorFactory.make_accumulator, IAdder.make_quantizer and MergeFactory quantizers; exact extreme-sum / brute-force oracles and paired-call monotonicity monitor",
+    "All multiplier output types of C16 x kernel shapes with N from 1 to 2^20+1 (2^k-1, 2^k, 2^k+1; dense and conv; with/without bias) x all adder operand pairs x merge layers: N*min, N*max, mixed extremes and resolution representable; sums of extremes (all sums for small types); LSB(result) <= finest operand LSB; range covers the summed magnitudes; widening an operand never narrows bits, int_bits, interval or LSB (pairs of calls generated together).",
+    "Types with int_bits > bits - sign are read as integers (f = 0), the reading under which the library's ternary/binary types are meaningful.", "5/C17")
